@@ -77,6 +77,16 @@ fn import_insertion_start(ctx: &Context) -> SourcePos {
     .unwrap_or(code_start)
 }
 
+/// Whether anything but white space follows `pos` on its line.
+fn code_follows_on_line(ctx: &Context, pos: SourcePos) -> bool {
+  let text_info = ctx.text_info();
+  let line_end = text_info.line_end(text_info.line_index(pos));
+  !text_info
+    .range_text(&SourceRange::new(pos, line_end))
+    .trim()
+    .is_empty()
+}
+
 impl NoProcessGlobalHandler {
   fn fix_change(&self, ctx: &mut Context) -> LintFixChange {
     // If the fix is an import, we want to insert it after the last import
@@ -84,7 +94,14 @@ impl NoProcessGlobalHandler {
     // the beginning of the file (but after any header comments).
     let (fix_range, leading, trailing) =
       if let Some(range) = self.most_recent_import_range {
-        (SourceRange::new(range.end(), range.end()), "\n", "")
+        // More code on the line of the last import stays on that line, so
+        // that a line-level ignore directive above it keeps covering it.
+        let leading = if code_follows_on_line(ctx, range.end()) {
+          " "
+        } else {
+          "\n"
+        };
+        (SourceRange::new(range.end(), range.end()), leading, "")
       } else {
         let code_start = import_insertion_start(ctx);
         (SourceRange::new(code_start, code_start), "", "\n")
